@@ -18,14 +18,15 @@ func init() {
 
 // fault kinds of VH_C04_Exit
 const (
-	ftHandler     = iota // handler rejects a transaction
-	ftMapperErr          // table lookup fails
-	ftMapperCols         // mapper table has a different column count
-	ftInvalid            // invalid event injected
-	ftUnsupported        // RAND / INTVAR / ROWS_QUERY event injected
-	ftDecode             // an accessor of an event fails
-	ftClosed             // event channel closed early (connection lost / EOF)
-	ftCancel             // context cancelled
+	ftHandler         = iota // handler rejects a transaction
+	ftMapperErr              // table lookup fails
+	ftMapperCols             // mapper table has a different column count
+	ftInvalid                // invalid event injected
+	ftUnsupported            // RAND / INTVAR / ROWS_QUERY event injected
+	ftDecode                 // an accessor of an event fails
+	ftClosed                 // event channel closed early (connection lost / EOF)
+	ftCancel                 // context cancelled
+	ftCancelInHandler        // the handler accepts a transaction and cancels the context while doing so
 	ftKinds
 )
 
@@ -68,7 +69,11 @@ func VH_C04_Exit(U, fault int) {
 	n := len(h.evs)
 	at := 2 + vhChoose(n-1) // fault position among the events after the FDE (n = at the very end)
 	rejectAt := -1
+	cancelAt := -1
 	switch fault {
+	case ftCancelInHandler:
+		vhAssume(len(h.exp) > 0)
+		cancelAt = vhChoose(len(h.exp))
 	case ftHandler:
 		vhAssume(len(h.exp) > 0)
 		rejectAt = vhChoose(len(h.exp))
@@ -127,6 +132,9 @@ func VH_C04_Exit(U, fault int) {
 			failed = true
 			return errHandler
 		}
+		if calls == cancelAt {
+			ctx.cancel() // e.g. the application shuts down while it stores this transaction
+		}
 		calls++
 		accepted++
 		return nil
@@ -137,7 +145,7 @@ func VH_C04_Exit(U, fault int) {
 	switch fault {
 	case ftHandler:
 		vhAssert(err != nil, "a handler failure is reported")
-	case ftClosed, ftCancel:
+	case ftClosed, ftCancel, ftCancelInHandler:
 		vhAssert(err == nil, "end of stream / cancellation is not an error of the parser")
 	case ftInvalid, ftUnsupported:
 		vhAssert(err != nil, "an invalid or unsupported event ends the stream with an error")
